@@ -333,3 +333,31 @@ def _(u):
         u.prove(f"num_starts.{name}", zint(got) == zint(want))
     got = u.run(OPS, "get_num_starts", td, "pdp", record=False)
     u.prove("num_starts.pdp", zint(got) == N / 2)
+
+
+AMD = "rl4co/models/zoo/am/decoder.py"
+
+
+@unit("am.decoder.cache.batchify", file=AMD, func="PrecomputedCache.batchify", props=("C12", "C14"))
+def _(u):
+    B, K, N, E = u.dims("B K N E")
+    ne = u.tensor("node_embeddings", (B, N, E), "f")
+    gc = u.tensor("graph_context", (B, 1, E), "f")
+    gk = u.tensor("glimpse_key", (B, N, E), "f")
+    gv = u.tensor("glimpse_val", (B, N, E), "f")
+    lk = u.tensor("logit_key", (B, N, E), "f")
+    obj = u.obj(AMD, "PrecomputedCache", node_embeddings=ne, graph_context=gc, glimpse_key=gk, glimpse_val=gv, logit_key=lk,
+                fields=(ne, gc, gk, gv, lk))
+    out = u.run(AMD, "PrecomputedCache.batchify", K, selfobj=obj, record=False)
+    r = u.idx((K * B,), "r")
+    n, e = u.idx((N, E), "n e")
+    # every cached tensor of replicated row r belongs to instance r mod B (same layout as the replicated TensorDict)
+    for name, src, idx in (("node_embeddings", ne, (n, e)), ("graph_context", gc, (0, e)), ("glimpse_key", gk, (n, e)),
+                           ("glimpse_val", gv, (n, e)), ("logit_key", lk, (n, e))):
+        t = out._attrs[name]
+        u.prove(f"cache.{name}.rows", AND(zint(t.shape[0]) == K * B, t.rank == src.rank))
+        u.prove(f"cache.{name}.row-mod-B", t.at(r, *idx) == src.at(r % B, *idx))
+    # a non-tensor graph context (no graph context: 0.0) is passed through
+    obj2 = u.obj(AMD, "PrecomputedCache", fields=(ne, 0.0, gk, gv, lk))
+    out2 = u.run(AMD, "PrecomputedCache.batchify", K, selfobj=obj2, record=False)
+    u.prove("cache.scalar-graph-context-kept", out2._attrs["graph_context"] == 0.0)
